@@ -12,14 +12,14 @@ func init() {
 		Rule:   "each run = one store, 3-30 requests after a drawn history: compose with 1..33 sources (repeats, empty objects, the destination among its sources, missing sources, per-source generations), destination metadata from the request; copy (rewrite) within and across buckets to destination names containing '/', '/o/', spaces, dots and percent characters, missing sources; uploads, patches and deletes in between; every response and the full state (sources untouched) are compared with the object model; distinct = hash of (store, shapes, source counts); non-trivial = at least one compose or copy that succeeded",
 		Real:   []string{"gcsemu handleGcsCompose/finishCompose, handleGcsCopy (rewriteTo path split), Store.Copy of both stores"},
 		Stub:   []string{"HTTP connections (recorder)", "wall clock (strictly increasing)"},
-		Assume: []string{"composite objects carry no MD5 (not compared)", "compose destination names containing '/compose' and copy source names containing '/rewriteTo/' are not sent (ambiguous URL forms)", "0 sources is not sent (unspecified)"},
+		Assume: []string{"composite objects carry no MD5 (not compared)", "destination names ENDING in '/compose' and copy source names containing '/rewriteTo/' are not sent (ambiguous URL forms)", "0 sources is not sent (unspecified)"},
 		Run:    runC15,
 	})
 	expectedProbes["C15"] = []string{"c15.compose_ok", "c15.compose_32", "c15.compose_33", "c15.compose_missing_source", "c15.compose_dest_among_sources", "c15.copy_ok", "c15.copy_cross_bucket", "c15.copy_dest_with_slash_o", "c15.copy_missing_source", "c15.compose_empty_source", "c15.compose_without_destination"}
 }
 
-var c15DstMem = []string{"dst.bin", "out/dir/x.txt", "x/o/y", "a/o/b/o/c", "sp ace/o ut", "d.o.t/..x", "pct%2Fz", "a.txt"}
-var c15DstFile = []string{"dst.bin", "out/dir/x.txt", "x/o/y", "a/o/b/o/c", "sp ace/o ut", "pct%2Fz", "a.txt"}
+var c15DstMem = []string{"dst.bin", "out/dir/x.txt", "x/o/y", "a/o/b/o/c", "sp ace/o ut", "d.o.t/..x", "pct%2Fz", "a.txt", "out/composer/final.bin"}
+var c15DstFile = []string{"dst.bin", "out/dir/x.txt", "x/o/y", "a/o/b/o/c", "sp ace/o ut", "pct%2Fz", "a.txt", "out/composer/final.bin"}
 
 func runC15(r *Run) {
 	cfg := r.T.S("cfg")
@@ -28,7 +28,7 @@ func runC15(r *Run) {
 	clk := NewClock(0, 1_700_000_000_000_000_000)
 	wallIncreasing(r, clk)
 	g := &gGen{store: store}
-	srcNames := []string{"s1", "s2.txt", "dir/s3", "empty.bin"}
+	srcNames := []string{"s1", "s2.txt", "dir/s3", "empty.bin", "arch/composed/s5"}
 	dsts := c15DstMem
 	if store == "file" {
 		dsts = c15DstFile
